@@ -1293,9 +1293,9 @@ class QuadraticForm(Expression):
         matrix: np.ndarray,
     ) -> None:
         matrix = np.asarray(matrix)
-        if matrix.dtype == np.bool_ or np.issubdtype(matrix.dtype, np.unsignedinteger):
-            # Q + Q.T is a logical OR for boolean masks and wraps for unsigned
-            # integers: keep such matrices (e.g. an adjacency mask) as numbers
+        if matrix.dtype == np.bool_ or np.issubdtype(matrix.dtype, np.integer):
+            # Q + Q.T is a logical OR for boolean masks and wraps around for
+            # (small) integer types: keep such matrices as floating-point numbers
             matrix = matrix.astype(np.float64)
         if matrix.ndim != 2:
             raise WrongDimensionalityError(
